@@ -71,7 +71,7 @@ impl<TS: TimeSource> BeaconSerializer<TS> {
 
     #[allow(clippy::needless_range_loop)]
     fn mask_with_keystream(&self, data: &mut [u8], type_: u8, seed: u8) {
-        let mut iter = 0;
+        let mut iter: u8 = 0;
         let mut mask = self.get_keystream(type_, seed, iter);
         let mut pos = 0;
         for i in 0..data.len() {
@@ -79,7 +79,7 @@ impl<TS: TimeSource> BeaconSerializer<TS> {
             pos += 1;
             if pos == 16 {
                 pos = 0;
-                iter += 1;
+                iter = iter.wrapping_add(1);
                 mask = self.get_keystream(type_, seed, iter);
             }
         }
